@@ -441,4 +441,4 @@ def _shared_c17(ctx):
     from .c12 import label_sinks
     from .c19 import lifecycle_of
     ctx.rule("R17.5", "fit does not depend on state left by an earlier fit and prediction writes no state (shared with C19 R19.3 / R19.4)")
-    lifecycle_of(ctx, [CLS], {"R19.3": "R17.5", "R19.4": "R17.5"})
+    lifecycle_of(ctx, [CLS], {"R19.3": "R17.5", "R19.4": "R17.5", "R19.8": "R17.5"})
